@@ -542,11 +542,14 @@ fn finish(check: &dyn Check, o: &Opts, merged: Report, mut inconclusive: Vec<Str
         }
     }
     let distinct = merged.distinct.len() as u64;
-    if distinct < check.min_nontrivial(o.tier) && unknown.is_empty() {
-        inconclusive.push(format!(
-            "only {distinct} distinct non-trivial cases observed (< {})",
-            check.min_nontrivial(o.tier)
-        ));
+    // On a slow or loaded machine shards stop taking new cases when their time budget is used up (that is
+    // not a verdict); the coverage floor is then scaled to the share of the planned cases that did run.
+    let planned = o.cases_override.unwrap_or_else(|| check.cases(o.tier)).max(1);
+    let ran = merged.cases_run.min(planned);
+    let floor = ((check.min_nontrivial(o.tier) as u128 * ran as u128) / planned as u128) as u64;
+    let floor = floor.max(check.min_nontrivial(o.tier).min(2));
+    if distinct < floor && unknown.is_empty() {
+        inconclusive.push(format!("only {distinct} distinct non-trivial cases observed (< {floor}; {ran} of {planned} planned cases ran)"));
     }
     // violation files
     let mut lines = vec![];
@@ -572,6 +575,8 @@ fn finish(check: &dyn Check, o: &Opts, merged: Report, mut inconclusive: Vec<Str
     coverage.insert("rule".into(), json!(check.rule()));
     coverage.insert("samples".into(), json!(merged.samples));
     coverage.insert("cases_run".into(), json!(merged.cases_run));
+    coverage.insert("cases_planned".into(), json!(planned));
+    coverage.insert("distinct_nontrivial_floor".into(), json!(floor));
     coverage.insert("counters".into(), json!(merged.counters));
     coverage.insert("exhaustive".into(), json!(check.exhaustive(o.tier) && merged.counters.get("cases_skipped_by_time_budget").copied().unwrap_or(0) == 0));
     coverage.insert("known_findings_reproduced".into(), json!(known_hit.keys().collect::<Vec<_>>()));
